@@ -181,7 +181,8 @@ namespace {
     std::string truth;
   };
   thread_local Ctx* tctx = nullptr;
-  thread_local bool isVictimThread = false;
+  thread_local int victimIndex = -1;  // >= 0: thread of manager i of an "interrupted waiter" script
+  std::atomic<bool> atWait[8];
   std::atomic<bool> victimAtWait{false}, victimDone{false};
   std::atomic<long> victimTid{0};
   std::atomic<int> holdHandlers{0};
@@ -231,8 +232,11 @@ namespace {
       handlerExits.fetch_add(1);
       return;
     }
-    if (isVictimThread && std::strcmp(name, "pm.wait.before_waitpid") == 0) {
-      victimAtWait.store(true);
+    if (victimIndex >= 0) {
+      if (std::strcmp(name, "pm.wait.before_waitpid") == 0) {
+        atWait[victimIndex].store(true);
+        if (victimIndex == 0) victimAtWait.store(true);
+      }
       return;
     }
     Ctx* const ctx = tctx;
@@ -532,17 +536,33 @@ namespace {
       // C30.*.concurrent_managers_destroyed_after_execute is out of this script
       std::vector<std::unique_ptr<tfel::system::ProcessManager>> managers;
       for (std::size_t i = 0; i != n; ++i) managers.push_back(std::make_unique<tfel::system::ProcessManager>());
+      // every wait below is event based; the bounds (20 s) only make a case
+      // inconclusive ("SEQUENCING ...")
+      const auto until = [](auto&& cond) {
+        for (int k = 0; k != 100000; ++k) {
+          if (cond()) return true;
+          sleepNs(200000);
+        }
+        return false;
+      };
       std::vector<std::thread> ths;
       for (std::size_t i = 0; i != n; ++i) {
+        // one process creation at a time.  (Concurrent createProcess calls leak
+        // the write end of each other's exec-notification pipe into the
+        // siblings' children: the creating thread then stays in read() until
+        // those children exit.  Here the children live until released, so
+        // concurrent creations would dead-lock the *script*; with ordinary
+        // commands it only delays createProcess and does not concern C30.)
+        if (i != 0 && !until([&] { return atWait[i - 1].load() || finished.load() >= static_cast<int>(i); })) {
+          problem = "manager " + std::to_string(i - 1) + " never reached waitpid";
+        }
         ths.emplace_back([&, i] {
           sigset_t s2;
           sigemptyset(&s2);
           sigaddset(&s2, SIGCHLD);
           ::pthread_sigmask(i == 0 ? SIG_UNBLOCK : SIG_BLOCK, &s2, nullptr);
-          if (i == 0) {
-            isVictimThread = true;
-            victimTid.store(::syscall(SYS_gettid));
-          }
+          victimIndex = static_cast<int>(i);
+          if (i == 0) victimTid.store(::syscall(SYS_gettid));
           auto& o = outs[i];
           o.victim = i == 0;
           o.achieved = true;
@@ -558,15 +578,9 @@ namespace {
           finished.fetch_add(1);
         });
       }
-      // every wait below is event based; the bounds (20 s) only make a case
-      // inconclusive ("SEQUENCING ...")
-      const auto until = [](auto&& cond) {
-        for (int k = 0; k != 100000; ++k) {
-          if (cond()) return true;
-          sleepNs(200000);
-        }
-        return false;
-      };
+      if (problem.empty() && !until([&] { return atWait[n - 1].load() || finished.load() >= static_cast<int>(n); })) {
+        problem = "the last manager never reached waitpid";
+      }
       const auto release = [](const std::string& f) {
         const int h = ::open(f.c_str(), O_CREAT | O_WRONLY | O_CLOEXEC, 0644);
         if (h != -1) ::close(h);
@@ -574,7 +588,7 @@ namespace {
       const auto victimWaiting = [] {
         return victimDone.load() || (victimAtWait.load() && inWait4(victimTid.load()));
       };
-      if (!until(victimWaiting)) problem = "the victim never reached waitpid";
+      if (problem.empty() && !until(victimWaiting)) problem = "the victim never reached waitpid";
       for (std::size_t i = 1; i != n && problem.empty(); ++i) {
         // one helper at a time: its child exits, the SIGCHLD goes to the
         // victim's thread (EINTR), every manager's handler runs there; go on
